@@ -20,7 +20,7 @@ PROP = {
     "shards": {"quick": 1, "thorough": 8},
     "cases_per_file": 40,
     "rule": "scenario = 0-6 events written at istructs level with one real generator per workspace (new and synced events, "
-            "explicit IDs above/below next and MaxUint64, ODoc argument trees, CUD graphs with parent/child and reference fields, "
+            "explicit IDs above/below next, at the generator's value on rows before/after raw rows, and MaxUint64, ODoc argument trees, CUD graphs with parent/child and reference fields, "
             "singletons, updates) then 0-12 commands through the real command processor with restarts (everything above "
             "the storage rebuilt, partition recovered from the PLog) between them, two workspaces, raw IDs from a small "
             "alphabet reused by every event; about a fifth of the events carry one ID-rule mutation (unknown raw "
@@ -30,8 +30,8 @@ PROP = {
     "trusted_base": ["modelled not verified: dynobuffers row encoding, PLog/records storage below IEvents/IRecords, "
                      "singleton registry, encoding/json of requests and responses"],
     "assumptions": ["events are well-formed apart from the ID rules (types, containers, required fields)",
-                    "explicit IDs of synced events do not collide with IDs already stored nor with the IDs the generator hands out "
-                    "for the raw IDs of the same event (client's responsibility; Apply refuses such an event with a sequences violation)",
+                    "explicit IDs of synced events do not collide with IDs already stored and lie above the singleton band "
+                    "(client's responsibility); collisions with IDs generated inside the same event are finding F43",
                     "a singleton is created at most once per workspace",
                     "no storage faults (C01)"],
 }
